@@ -383,6 +383,30 @@ func exprKeyD(v ssa.Value, d int) string {
 	case *ssa.Lookup:
 		return exprKeyD(v.X, d+1) + "[" + exprKeyD(v.Index, d+1) + "]"
 	case *ssa.Slice:
+		if a, ok := v.X.(*ssa.Alloc); ok && a.Comment == "varargs" {
+			// variadic argument list: render the stored elements in order
+			elems := map[int64]string{}
+			max := int64(-1)
+			for _, rf := range refs(a) {
+				if ia, ok := rf.(*ssa.IndexAddr); ok {
+					if i, ok := constInt(ia.Index); ok {
+						for _, r2 := range refs(ia) {
+							if st, ok := r2.(*ssa.Store); ok && st.Addr == ssa.Value(ia) {
+								elems[i] = exprKeyD(st.Val, d+1)
+								if i > max {
+									max = i
+								}
+							}
+						}
+					}
+				}
+			}
+			var es []string
+			for i := int64(0); i <= max; i++ {
+				es = append(es, elems[i])
+			}
+			return "[" + strings.Join(es, ",") + "]"
+		}
 		s := exprKeyD(v.X, d+1) + "["
 		if v.Low != nil {
 			s += exprKeyD(v.Low, d+1)
